@@ -7,6 +7,7 @@ streams (component level: the real classes are called in-process; document level
   verb    : `verb.invoke` + `verb.digest` on  [*] delimiter body delimiter rest, every printable delimiter
   verbdoc : the same in a whole document
   verbraw : arbitrary input after \\verb: implementation vs model
+  mgrp    : the text of a brace group inside $ $ after digestion (digest-time normalisation): repaired / as-is variant (D17)
   msrc    : formulas of the math grammar (depth <= 4) in $ $, \\( \\), \\[ \\], $$ $$, equation and inside text
             arguments, partly written with user macros: `math_node.source` (and `mathjax_source`) vs the model string,
             and `source` re-tokenised by the real tokenizer vs the formula's tokens (Spec)
@@ -19,11 +20,13 @@ LEAN_MODULE = 'PlasVerif.Properties.C11'
 LEVEL_TEXT = ('Lean 4 theorems over line-by-line models of VerbatimEnvironment.invoke, verb.invoke/digest, Macro.source / bgroup / math / '
               'displaymath / Array source reconstruction and mathjax_lt_gt: verbatim_scan_exact and verb_scan_exact (every body whose end '
               'marker occurs first at the end, every delimiter: exactly the body is returned and reading resumes right after the marker; '
-              'composed with C01.verbatim_identity: one token per character), math_source_roundtrip (for every formula of the grammar, any '
+              'composed with C01.verbatim_identity: one token per character), after_verbatim_normal (C04 context model: verbatim table while '
+              'scanning, the table before the environment after the pop), no_charsub_in_verbatim_or_math / verbatim_text_exact (C07 '
+              'normalisation model: no substitution below verbatim or math nodes), math_source_roundtrip (for every formula of the grammar, any '
               'depth: the reconstructed source re-tokenised by the C01 tokenizer model is, blanks aside, the formula\'s token sequence), '
-              'mathjax_lt_gt_only_changes_angle. What the parser builds for a formula (argument structure per macro), expansion of user '
-              'macros, the restoration of category codes after verbatim (C04) and the rendered \\( \\) payload are carried by the '
-              'correspondence streams only.')
+              'render_lexes (the written formula lexes to the same tokens), mathjax_lt_gt_only_changes_angle; known finding D17 in both variants '
+              '(math_group_digest_asIs_counterexample / math_group_digest_repaired). What the parser builds for a formula (argument structure '
+              'per macro), expansion of user macros and the rendered \\( \\) payload are carried by the correspondence streams only.')
 LEVEL_NOTE = ('Trusted: Lean kernel (axioms propext, Classical.choice, Quot.sound only), the correspondence harness and its generators '
               '(formula depth <= 4, bodies <= 60 characters), CPython. Modelled not verified: the parser (Model/MathParse.lean is tied by '
               'the msrc stream), user-macro expansion, the image generator\'s use of source, alltt/listings.')
@@ -405,6 +408,10 @@ def generate(ctx):
     for i in range(60 if q else 1500):   # malformed \verb
         inp = gen_body(rng, 12).replace('\n', ' ')
         yield Case('verbraw', cps(inp), {'kind': 'verbraw'})
+    plain = ''.join(c for c in MATH_CH if c not in LIG_CH and c not in '[]')
+    for i in range(60 if q else 1500):
+        # without ligature characters both variants of the known finding D17 coincide; the witness carries the rest
+        yield Case('mgrp', cps(''.join(rng.choice(plain) for _ in range(rng.randint(1, 8)))), {'kind': 'mgrp'})
     n_m = 1500 if q else 30000
     ctxs = list(CONTEXTS)
     for i in range(n_m):
@@ -600,6 +607,11 @@ def impl(case, aux):
             return impl_verb(uncps(w[0]))
         if kind == 'msrc':
             return impl_msrc(case)
+        if kind == 'mgrp':
+            doc, tex = new_tex('T $x{%s}$ U' % uncps(w[0]))
+            tex.parse()
+            gs = doc.getElementsByTagName('math')[0].getElementsByTagName('bgroup')
+            return cps0(gs[0].textContent) if len(gs) == 1 else 'groups:%d' % len(gs)
     except Exception as e:
         return canon_exc(e)
     raise ValueError(kind)
@@ -648,6 +660,13 @@ def judge(o):
             o.prop_ok = False
             o.note = 'mathjax_source %r, expected %r' % (mj, want)
         return
+    if st == 'mgrp':
+        # either variant of the dual model is the code's behaviour; the property wants the characters unchanged
+        o.corr_ok = (o.impl == o.model) or (bool(o.aux) and o.impl == o.aux[0])
+        o.prop_ok = (o.impl == o.spec)
+        if o.corr_ok and o.impl != o.model:
+            o.note = 'implementation follows the as-is variant (D17)'
+        return
     if st in ('vdoc', 'verbdoc') and o.spec == '-':
         # the body contains the complete end marker / closing delimiter: outside the domain, and the document-level
         # observation (text after the node) is not modelled for it; the component streams compare such inputs
@@ -668,6 +687,8 @@ def nontrivial(o):
         return any(c in uncps(w[2]) for c in SPECIALS)
     if st in ('verb', 'verbdoc'):
         return len(uncps(w[2])) > 0
+    if st == 'mgrp':
+        return len(uncps(w[0])) > 1
     return False
 
 
